@@ -1,5 +1,6 @@
 import FractopoModel.Model.Snap
 import FractopoModel.Lemmas.SnapLoop
+import FractopoModel.Generated.SnapInsert
 import FractopoModel.Generated.Windows
 import FractopoModel.Generated.DegreeToClass
 import FractopoModel.Props.C05
@@ -108,6 +109,54 @@ theorem C06_moves_within_threshold (t : Rat) (trace c another : Polyline) (ep v 
     (SnapL.simpleTarget t trace c ep = some v → Pt.dist2 v ep < t * t) ∧
     ((SnapL.snapToAnother t eps another).2 = true → ∃ e ∈ eps, SnapL.near t e another = true ∧ SnapL.onLine e another = false) :=
   ⟨SnapL.simpleTarget_close t trace c ep v, SnapL.snapToAnother_changed t eps another⟩
+
+/-! ### regenerated loops of the second snapping stage -/
+
+theorem boundary_loop_eq {P A : Type} (bdist : P → A → Rat) (ep : P) (all l : List A) (t : Rat) :
+    Gen.is_endpoint_close_to_boundary_loop1 bdist ep all t l =
+      if l.any (fun a => decide (bdist ep a < t)) then .ret true else .done () := by
+  induction l with
+  | nil => simp [Gen.is_endpoint_close_to_boundary_loop1]
+  | cons a rest ih =>
+    simp only [Gen.is_endpoint_close_to_boundary_loop1, List.any_cons]
+    by_cases h : bdist ep a < t
+    · simp [h]
+    · simp [h, ih]
+
+/-- **Ends near the boundary are boundary ends**: the regenerated `is_endpoint_close_to_boundary` answers true exactly
+when some area boundary is strictly within the threshold -- the filter the model applies (`SnapL.closeToBoundary`) -/
+theorem C06_generated_boundary_filter {P A : Type} (bdist : P → A → Rat) (ep : P) (areas : List A) (t : Rat) :
+    Gen.is_endpoint_close_to_boundary bdist ep areas t = areas.any (fun a => decide (bdist ep a < t)) := by
+  unfold Gen.is_endpoint_close_to_boundary
+  rw [boundary_loop_eq]
+  cases h : areas.any (fun a => decide (bdist ep a < t)) <;> simp
+
+theorem insert_loop_eq {P L : Type} (dist : P → L → Rat) (on : P → L → Bool) (insert : L → P → Rat → L) (te : List P) (t : Rat)
+    (all l : List P) (another : L) :
+    Gen.snap_trace_to_another_loop1 dist on insert te t all l another = l.foldl (fun a ep => insert a ep t) another := by
+  induction l generalizing another with
+  | nil => simp [Gen.snap_trace_to_another_loop1]
+  | cons ep rest ih => simp [Gen.snap_trace_to_another_loop1, ih]
+
+/-- **The regenerated `snap_trace_to_another` is the model's second stage for one trace**: the ends to insert are
+selected against the trace as it is before any insertion (strictly within the threshold and not already on it), then
+inserted one after the other; "changed" is reported iff something was selected. Instantiated with the exact
+predicates and `Snap.insertGeo` this is `SnapL.snapToAnother`. -/
+theorem C06_generated_snap_to_another (dist : Pt → Polyline → Rat) (t : Rat) (eps : List Pt) (another : Polyline)
+    (hdist : ∀ ep ∈ eps, decide (dist ep another < t) = SnapL.near t ep another) :
+    Gen.snap_trace_to_another dist (fun ep l => SnapL.onLine ep l) (fun l ep thr => Snap.insertGeo l ep thr) eps another t
+      = SnapL.snapToAnother t eps another := by
+  unfold Gen.snap_trace_to_another SnapL.snapToAnother
+  simp only [List.map_id', insert_loop_eq]
+  have hsel : (eps.filter fun ep => (decide (dist ep another < t) && !SnapL.onLine ep another))
+      = eps.filter fun ep => SnapL.near t ep another && !SnapL.onLine ep another := by
+    apply List.filter_congr
+    intro ep hep
+    rw [hdist ep hep]
+  rw [hsel]
+  cases hl : (eps.filter fun ep => SnapL.near t ep another && !SnapL.onLine ep another) with
+  | nil => simp
+  | cons a as => simp
 
 /-- non-vacuity: a T-abutment that touches exactly is quiet; the same end 1/200 short of the target is
 inserted into the target by one pass (threshold 1/100), and a second pass changes nothing -/
